@@ -1512,3 +1512,7 @@ mut("lru_new_id_not_incremented", ["C13", "C01"], "CACHE-2|<utils::cache::LRUCac
 mut("lru_eviction_removes_the_new_key", ["C13", "C01"], "CACHE-2|<utils::cache::LRUCache<K, V> as utils::cache::Cache<K, V>>::insert|eviction-removes-the-evicted-key", patch="lru_eviction_removes_the_new_key.diff",
     note="an eviction unmaps the entry just inserted and leaves the evicted key mapped to an unlinked node")
 benign_patch("refactor_s12_01", "benign/set12_01_new_id_post_increment.diff", note='new_id hands out the value before the increment (just as fresh)')
+mut("table_builder_flush_unwrapped", ["C08", "C09"], "ERR-6|tables::table_builder::TableBuilder::flush_data_block|callee=std::io::Write::flush", patch="table_builder_flush_unwrapped.diff",
+    note="a failed flush of a table file panics the flushing / compacting thread instead of being reported")
+mut("log_writer_flush_unwrapped", ["C08", "C09"], "ERR-6|logs::LogWriter::emit_block|callee=std::io::Write::flush", patch="log_writer_flush_unwrapped.diff",
+    note="a failed WAL flush panics the writer")
